@@ -19,6 +19,7 @@ import (
 	"io"
 	"math/big"
 	"net/http"
+	"net/http/httptest"
 	"net/url"
 	"regexp"
 	"strconv"
@@ -27,6 +28,7 @@ import (
 
 	"github.com/beevik/etree"
 	"github.com/crewjam/saml"
+	"github.com/crewjam/saml/samlsp"
 	dsig "github.com/russellhaering/goxmldsig"
 )
 
@@ -363,6 +365,82 @@ func formMessage(html []byte) ([]byte, error) {
 	}
 	v := strings.NewReplacer("&#43;", "+", "&#61;", "=", "&amp;", "&").Replace(string(m[2]))
 	return base64.StdEncoding.DecodeString(v)
+}
+
+// middlewareStartFlows: the requests the samlsp middleware emits when it starts a login — whatever binding it is told to prefer
+// and whatever bindings the IdP offers: with request signing configured the emitted message verifies under the published
+// certificate (redirect: over the octets of the URL; POST: enveloped), or the reply is an error; never an unsigned message.
+func (c *Ctx) middlewareStartFlows() {
+	now := baseTime
+	saml.TimeNow = func() time.Time { return now }
+	root := "https://sp.example.com"
+	for _, kc := range []struct{ key, method string }{{"sp", dsig.RSASHA256SignatureMethod}, {"ec256", dsig.ECDSASHA256SignatureMethod}} {
+		for _, prefer := range []string{"", saml.HTTPRedirectBinding, saml.HTTPPostBinding} {
+			for _, offer := range []string{"redirect", "post", "both"} {
+				var eps []saml.Endpoint
+				if offer != "post" {
+					eps = append(eps, saml.Endpoint{Binding: saml.HTTPRedirectBinding, Location: idpSSOURL})
+				}
+				if offer != "redirect" {
+					eps = append(eps, saml.Endpoint{Binding: saml.HTTPPostBinding, Location: idpSSOURL + "-post"})
+				}
+				k := c.key(kc.key)
+				m, err := samlsp.New(samlsp.Options{URL: mustURL(root), Key: k.Key, Certificate: k.Cert, SignRequest: true,
+					IDPMetadata: &saml.EntityDescriptor{EntityID: idpEntity, IDPSSODescriptors: []saml.IDPSSODescriptor{{SingleSignOnServices: eps}}}})
+				must(err)
+				m.Binding = prefer
+				m.ServiceProvider.SignatureMethod = kc.method
+				saml.RandReader = &detReader{c: c}
+				why := ""
+				res := safely(func() string {
+					w := httptest.NewRecorder()
+					r := httptest.NewRequest("GET", root+"/protected", nil)
+					m.HandleStartAuthFlow(w, r)
+					cert := k.Cert
+					switch {
+					case w.Code == 302:
+						u, err := url.Parse(w.Header().Get("Location"))
+						if err != nil {
+							return "bad-location"
+						}
+						raw := u.RawQuery
+						sg := rawParam(raw, "Signature")
+						i, j := strings.Index(raw, "SAMLRequest="), strings.Index(raw, "&Signature=")
+						if len(sg) != 1 || i < 0 || j < i {
+							return "redirect-unsigned"
+						}
+						sigB, _ := base64.StdEncoding.DecodeString(sg[0])
+						if !verifyDetached(cert.PublicKey, kc.method, []byte(raw[i:j]), sigB) {
+							return "redirect-signature-invalid"
+						}
+						return "redirect-signed"
+					case w.Code == 200:
+						xmlb, err := formMessage(w.Body.Bytes())
+						if err != nil {
+							return "post-no-message"
+						}
+						doc := etree.NewDocument()
+						if doc.ReadFromBytes(xmlb) != nil || doc.Root() == nil {
+							return "post-unreadable"
+						}
+						if doc.Root().FindElement("./Signature") == nil {
+							return "post-unsigned"
+						}
+						if err := verifyEnveloped(doc.Root(), cert); err != nil {
+							return "post-signature-invalid"
+						}
+						return "post-signed"
+					}
+					return fmt.Sprintf("error-%d", w.Code)
+				})
+				if strings.Contains(res, "unsigned") || strings.Contains(res, "invalid") || strings.HasPrefix(res, "panic") || strings.HasPrefix(res, "post-no") || strings.HasPrefix(res, "post-unr") || res == "bad-location" {
+					why = fmt.Sprintf("key=unsigned-message:middleware request signing is configured (%s), the middleware prefers %q, the IdP offers %s: it emitted %s", kc.method, prefer, offer, res)
+				}
+				c.count("c13-middleware-start", fmt.Sprintf("prefer=%s offer=%s -> %s", prefer[strings.LastIndex(prefer, ":")+1:], offer, res))
+				c.emitOneWay("mwstart", []string{encStr(kc.key), encStr(prefer), encStr(offer)}, res, why)
+			}
+		}
+	}
 }
 
 // xmlSignedMessages: POST-binding AuthnRequest, logout messages and ArtifactResolve carry an enveloped signature that
@@ -939,6 +1017,7 @@ func (c *Ctx) genC13() {
 		}
 	}
 	c.xmlSignedMessages()
+	c.middlewareStartFlows()
 	c.keyRotation()
 	c.artifactWire()
 }
